@@ -436,7 +436,8 @@ Fixpoint drun (tenv : env) (w : world) (rs : list dreq) : list (dres * world) :=
 (* 5. the agent scheduler's raptor forwarding and backlog                      *)
 (* ========================================================================== *)
 (* raptor ids: 0 is '*'; queues in registration order (dict order) *)
-Record sst := mkS { s_queues : list Z; s_backlog : list (Z * list Z) }.
+(* s_gone: raptor masters which unregistered (self._raptor_gone) *)
+Record sst := mkS { s_queues : list Z; s_backlog : list (Z * list Z); s_gone : list Z }.
 
 (* incoming task: uid, raptor_id (None: absent/empty), mode is RAPTOR_WORKER, raptor_seen *)
 Definition stask := (Z * option Z * bool * bool)%type.
@@ -500,8 +501,11 @@ Fixpoint forward (st : sst) (groups : list (Z * list Z)) : sst * list sev :=
       else if negb (match s_queues st with [] => true | _ => false end) && (name =? 0) then
         let '(st', evs) := forward st r in
         (st', rr (s_queues st) (Z.of_nat (length (s_queues st))) 0 us ++ evs)
+      else if memZ name (s_gone st) then
+        (* that raptor master unregistered: nobody will ever pick these up *)
+        let '(st', evs) := forward st r in (st', map SFail us ++ evs)
       else
-        forward (mkS (s_queues st) (badd name us (s_backlog st))) r
+        forward (mkS (s_queues st) (badd name us (s_backlog st)) (s_gone st)) r
   end.
 
 (* remove the uids to cancel from every backlog list (lists stay, possibly empty) *)
@@ -523,16 +527,17 @@ Definition sstep (st : sst) (o : sop) : sst * list sev :=
       let '(b2, e2) := match blookup 0 b1 with
                        | Some us => (bremove 0 b1, [SPut name us])
                        | None => (b1, @nil sev) end in
-      (mkS qs b2, e1 ++ e2)
+      (mkS qs b2 (filter (fun g => negb (g =? name)) (s_gone st)), e1 ++ e2)
   | SUnregister name =>
       let qs := filter (fun q => negb (q =? name)) (s_queues st) in
+      let gn := if memZ name (s_gone st) then s_gone st else s_gone st ++ [name] in
       match blookup name (s_backlog st) with
-      | Some us => (mkS qs (bremove name (s_backlog st)), map SFail us)
-      | None => (mkS qs (s_backlog st), [])
+      | Some us => (mkS qs (bremove name (s_backlog st)) gn, map SFail us)
+      | None => (mkS qs (s_backlog st) gn, [])
       end
   | SCancelOp uids =>
       let '(b', c) := cancel_backlog uids (s_backlog st) in
-      (mkS (s_queues st) b', [SCancel c])
+      (mkS (s_queues st) b' (s_gone st), [SCancel c])
   end.
 
 Fixpoint srun (st : sst) (ops : list sop) : sst * list sev :=
